@@ -14,6 +14,7 @@
 import os, json, re, hashlib
 from concurrent.futures import ThreadPoolExecutor
 from vlib import *
+import props
 
 ID = "C18"
 INFO = (
@@ -169,7 +170,8 @@ def run(ck):
     thorough = ck.tier == "thorough"
     ck.rule = ("cases = generated texts (ASCII / Latin-1 / CJK / astral mixes and homogeneous runs, 0..4096 characters, every length <= 64, first character ASCII or U+FEFF) x {UTF-8, UTF-16LE, UTF-16BE} x {BOM, no BOM} "
                "+ ALL byte strings of length <= %d over {00,0A,20,2D,41,80,C3,E4,FE,FF} + seeded random bytes + truncated/substituted/spliced encodings + the byte form of the model's lasso; each x {ignore, strict, replace, "
-               "continuing callback, breaking callback}, every decode() call in a child process under a %d ms watchdog; one record per byte string, judged by Trace_Decode in TLC; "
+               "continuing callback, breaking callback}, every decode() call in a child process under a %d ms watchdog; one record per byte string, judged by Trace_Decode in TLC; plus double-quoted scalars alternating well-formed text and single malformed sequences in the three encodings, "
+               "whose loaded content under ignore / replace / a continuing callback and the bytes shown to the callback are judged by Trace_DecodeTraps; "
                "distinct = distinct byte strings longer than one byte (measured)") % (6 if thorough else 4, 1500)
     ck.assumptions = [
         "encoding_rs is abstracted to its documented contract (progress with >= 4 spare bytes; never writes beyond the capacity); the contract is checked on every recorded loop head (drift if broken)",
@@ -222,6 +224,19 @@ def run(ck):
             ck.violation(case_key(reason, r, trap), what, replay)
         else:
             ck.note_drift({"reason": reason, "trap": trap, "hex": r["hex"][:64], "heads": [y["its"][:6] for y in r["runs"] if y["trap"] == trap][:1]})
+    # (4) "it continues as configured": the content of what the continuing traps produce, and what the callback is shown
+    tf = ck.wd("c18_traps.ndjson")
+    st = vh_json(["c18-traps", "--out", tf, "--n", "30000" if thorough else "1500"])
+    ck.evaluations += st["evaluations"]
+    jt = props.judge(ck, "Trace_DecodeTraps", tf, name="C18_traps", chunk=20000)
+    ck.traces += jt.judged
+    ck.extra["trap_content_cases"] = st["records"]
+    if jt.rejects:
+        tr = read_ndjson(tf)
+        for rej in jt.rejects[:200]:
+            r = tr[rej[0] - 1]
+            ck.violation("traps:%s:%s" % (r["enc"], r["hex"]), "%s — %s input %s (malformed groups %s): ignore %r, replace %r, callback %r, shown %s" % (
+                rej[1], r["enc"], r["hex"][:80], r["bad"], "".join(r["runs"]["ignore"]["s"])[:40], "".join(r["runs"]["replace"]["s"])[:40], "".join(r["runs"]["callhex"]["s"])[:40], r["slices"]), r)
     # was the model's lead reproduced by the real code?
     for r in lead_recs:
         if r["fam"] == "lead":
